@@ -470,8 +470,6 @@ func Main(t *testing.T, spec Spec) {
 					if len(ps.Samples) < maxSamples {
 						ps.Samples = append(ps.Samples, c)
 					}
-				} else if len(ps.Samples) == 0 && ps.Cases == 1 {
-					_ = c
 				}
 			})
 		})
